@@ -33,6 +33,14 @@ import (
 type c11File struct {
 	V  string `json:"v"`
 	Ck bool   `json:"ck,omitempty"`
+	N  int    `json:"n,omitempty"` // statements in the file (0 means 2); grown to 3 by the "grow" operation
+}
+
+func (f c11File) stmts() int {
+	if f.N == 0 {
+		return 2
+	}
+	return f.N
 }
 
 type c11Scn struct {
@@ -53,7 +61,10 @@ func (s *c11CLIState) writeDir() error {
 	var fs []dirFile
 	sort.Slice(s.files, func(i, j int) bool { return s.files[i].V < s.files[j].V })
 	for _, f := range s.files {
-		body := fmt.Sprintf("CREATE TABLE t%s_1 (x int);\nCREATE TABLE t%s_2 (x int);\n", f.V, f.V)
+		body := ""
+		for i := 1; i <= f.stmts(); i++ {
+			body += fmt.Sprintf("CREATE TABLE t%s_%d (x int);\n", f.V, i)
+		}
 		if f.Ck {
 			body = "-- atlas:checkpoint\n\n" + body
 		}
@@ -197,7 +208,13 @@ func (s *c11CLIState) checkStatus() (sig, what string, st *c11Status) {
 	}
 	if n := len(db.revs); n > 0 && want.Err != "non-linear" {
 		last := db.revs[n-1]
-		if last.Applied != last.Total && last.Type&4 == 0 && (st.Count != last.Applied || st.Total != 2) {
+		n := 2
+		for _, f := range s.files {
+			if f.V == last.Version {
+				n = f.stmts()
+			}
+		}
+		if last.Applied != last.Total && last.Type&4 == 0 && (st.Count != last.Applied || st.Total != n) {
 			return "status-count-wrong", fmt.Sprintf("revision %s has %d of %d statements applied, status reports Count=%d Total=%d", last.Version, last.Applied, last.Total, st.Count, st.Total), st
 		}
 	}
@@ -265,16 +282,22 @@ func (s *c11CLIState) apply(r *hx.Rand) (sig, what string) {
 			if ok && cur.a != cur.t && cur.ty&4 == 0 {
 				start = cur.a // resume after the last applied statement
 			}
-			for i := start; i < 2; i++ {
+			n := 2
+			for _, f := range s.files {
+				if f.V == v {
+					n = f.stmts()
+				}
+			}
+			for i := start; i < n; i++ {
 				t := fmt.Sprintf("t%s_%d", v, i+1)
 				if tables[t] {
-					exp[v] = rev{i, 2, 2}
+					exp[v] = rev{i, n, 2}
 					wantFail = true
 					break files
 				}
 				tables[t] = true
 			}
-			exp[v] = rev{2, 2, 2}
+			exp[v] = rev{n, n, 2}
 		}
 	default:
 		wantFail = true
@@ -502,6 +525,27 @@ func c11CLI(e *Env, pool *hx.Pool) {
 				s.ops = append(s.ops, fmt.Sprintf("add file %s_f.sql checkpoint=%v", v, f.Ck))
 				if err := s.writeDir(); err != nil {
 					return
+				}
+			case x < 7 && r.Chance(1, 2):
+				// the not yet applied tail of a file gets one more statement (allowed: only applied statements are checked)
+				db := s.read()
+				done := map[string]int{}
+				for _, x := range db.revs {
+					done[x.Version] = x.Applied
+					if x.Applied == x.Total || x.Type&4 != 0 {
+						done[x.Version] = 99
+					}
+				}
+				for i := range s.files {
+					if f := &s.files[i]; f.N == 0 && done[f.V] < 2 {
+						f.N = 3
+						s.ops = append(s.ops, fmt.Sprintf("grow: %s_f.sql gets a third statement", f.V))
+						tags = append(tags, "cli-op:grow")
+						if err := s.writeDir(); err != nil {
+							return
+						}
+						break
+					}
 				}
 			case x < 8:
 				// make the second statement of a file fail (its table already exists) / repair it
